@@ -93,7 +93,7 @@ def run(tier, seed, replay=None):
     base = os.path.join(C.CACHE, "c17")
     shutil.rmtree(base, ignore_errors=True)
     os.makedirs(base)
-    n = 400 if big else 120
+    n = 1500 if big else 120
     tabs = [gen_table(r, big) for _ in range(n)]
     wl = ["dbcwrite %s %s" % (schema_tok(f), recs_tok(rc)) for f, k, rc in tabs]
     files = C.run_lines([C.MODELRUN], wl, shards=C.NPROC, timeout=1500)
